@@ -151,6 +151,9 @@ func RunRegistry(behs [][]Step, tr *Trace, env Env, sum *Summary) {
 	for bi, beh := range behs {
 		func() {
 			w, err := world.New(env.Scratch, world.Options{Service: true})
+			if err == nil {
+				w.TS.Profile.Config.Demon.TrustXForwardedFor = bi%2 == 0 // every other behaviour runs behind a redirector
+			}
 			must(err)
 			defer w.Close()
 			s := &regState{w: w, svc: w.StartSvc(), sc: map[string]*world.OpClient{}, ports: map[string]string{}, hold: map[string]net.Listener{}, rng: rand.New(rand.NewSource(env.Seed + int64(bi)*1000003))}
@@ -204,7 +207,8 @@ func RunRegistry(behs [][]Step, tr *Trace, env Env, sum *Summary) {
 							must(e)
 						}
 						_, had := s.ports[a]
-						cfg := handlers.HTTPConfig{Name: a, Hosts: []string{"127.0.0.1"}, HostBind: "127.0.0.1", PortBind: p, HostRotation: "round-robin", UserAgent: uaOf(0)}
+						cfg := handlers.HTTPConfig{Name: a, Hosts: []string{"127.0.0.1"}, HostBind: "127.0.0.1", PortBind: p, HostRotation: "round-robin", UserAgent: uaOf(0),
+							BehindRedir: w.TS.Profile.Config.Demon.TrustXForwardedFor} // as the operator's Add does it
 						call(func() { err = w.TS.ListenerStart(handlers.LISTENER_HTTP, cfg) })
 						if err == nil && !had {
 							s.ports[a] = p
@@ -273,6 +277,7 @@ func RunRegistry(behs [][]Step, tr *Trace, env Env, sum *Summary) {
 					if st.Int("b") == 1 {
 						req.Header.Set("X-Ver", "1")
 					}
+					req.Header.Set("X-Forwarded-For", "203.0.113.7")
 					resp, err := (&http.Client{Timeout: 5 * time.Second}).Do(req)
 					if err != nil {
 						ok = false
@@ -280,6 +285,18 @@ func RunRegistry(behs [][]Step, tr *Trace, env Env, sum *Summary) {
 					} else {
 						ok = resp.StatusCode == 200
 						resp.Body.Close()
+						// an admitted registration is attributed as the profile says: to the forwarded-for address behind a
+						// redirector, to the peer otherwise - also after the listener has been edited
+						if ag := w.Agent(id); ok && ag != nil {
+							want := "127.0.0.1"
+							if w.TS.Profile.Config.Demon.TrustXForwardedFor {
+								want = "203.0.113.7"
+							}
+							if ag.Info.ExternalIP != want {
+								ok = false
+								sum.Counters["attribution.wrong"]++
+							}
+						}
 					}
 				case "SvcConnect":
 					cl, err := s.svc.Dial()
